@@ -18,6 +18,7 @@ pub struct Error {
 }
 
 impl Error {
+    #[cfg_attr(jiff_verif, inline(never))]
     pub(crate) fn from_args<'a>(message: core::fmt::Arguments<'a>) -> Error {
         #[cfg(feature = "alloc")]
         {
